@@ -29,6 +29,7 @@ from ._g2_helpers import (
     ST,
     arg_map,
     binding_values,
+    derives_from,
     bound_from,
     call_sites_of,
     calls_to,
@@ -248,6 +249,28 @@ def _state_envelope(ctx: Ctx) -> None:
               bad=f"a union-state method accepts an untagged payload ({r_union_plain!r}) or an unknown tag ({r_union_big!r})")
 
 
+def _call_state_class(ctx: Ctx) -> None:
+    """Cold path (no cached call): the class a presented call token is deserialised into must be picked among the
+    call-state classes the *addressed* method declares -- i.e. the lookup derives from the route's state info -- so a
+    stream that carries call state cannot hand it to another method's endpoint.  (Independent of the recorded findings:
+    this is the one method-dependent check the miss path has today.)"""
+    rc = ctx.fn("vgi_rpc/http/server/_app_stream.py:_resolve_call_from_token")
+    des = [c for c in calls(rc) if last_attr(c) in ("deserialize_from_bytes", "deserialize_from_batch") and isinstance(c.func, ast.Attribute) and isinstance(c.func.value, ast.Name)]
+    if not des:
+        raise AnalysisError(f"anchor=call-state deserialisation in {rc.fq}")
+    ps = params_of(rc)
+    ann = {a.arg: txt(a.annotation) if a.annotation is not None else "" for a in rc.node.args.args}
+    route_params = {p for p in ps if "StateInfo" in ann.get(p, "") or p == "state_info"}
+    for i, d in enumerate(des):
+        cls_name = d.func.value.id  # type: ignore[union-attr]
+        vals = binding_values(rc, cls_name)
+        ok = bool(route_params) and bool(vals) and all(derives_from(rc, v, route_params) for v in vals)
+        ctx.check(ok, "RF-TAINT", f"call-state-class-from-addressed-method:{i}", rc, d,
+                  ok=f"the class `{cls_name}` a call token is deserialised into is looked up among the addressed method's declared call-state classes ({sorted(route_params)})",
+                  bad=f"the class `{cls_name}` a call token is deserialised into does not derive from the addressed method's state info: on a cache miss another method's call token is accepted, its call state "
+                  "is bound into this method's state and process()/on_cancel() run on state this method's init never produced")
+
+
 def run(ctx: Ctx) -> None:
     ctx.explanation = META["text"]
     ctx.not_decided = "that the bound method name is framed unambiguously inside the AAD/payload (covered for identity fields by C12); behaviour for methods whose state types cannot be resolved."
@@ -256,6 +279,7 @@ def run(ctx: Ctx) -> None:
         "the only stream-token mint/open sites are in http/server/_app_stream.py and _state_token.py (checked: call-site minimums)",
     ]
     _state_envelope(ctx)
+    _call_state_class(ctx)
     init = ctx.fn(HTTP_INIT)
     exch = ctx.fn(HTTP_EXCHANGE)
     rec = ctx.fn(RECOVER)
